@@ -30,6 +30,18 @@ def base_cfgs(tier, fixed):
             cs.append(F.line3(c1, c2, order=order))
         cs.append(F.join3(c1, c2))
         cs.append(F.fan3(c1, c2, order=("C", "A", "B")))
+    # components with their own clock (implement ITimeComponent directly instead of deriving from the sdk's TimeComponent)
+    for who in ((1,), (0,), (0, 1)):
+        for ch in ([], [F.TOK["L"]], [F.TOK["F1"]]):
+            c = F.pair(ch)
+            for k in who:
+                c["comps"][k]["own_clock"] = True
+            cs.append(c)
+    for who in ((2,), (0, 2), (1,)):
+        c = F.line3([], [F.TOK["L"]], order=("C", "A", "B"))
+        for k in who:
+            c["comps"][k]["own_clock"] = True
+        cs.append(c)
     # leaf consumers that declare themselves FINISHED before the end time (they must not be updated again, the run still ends)
     for fin in (1, 2, 3.5):
         for order in (("A", "B"), ("B", "A")):
